@@ -3,7 +3,7 @@
    Fam selects the request alphabet: "pubsub" (C02), "retain" (C07), "ending" (C08), "presence" (C18), "all". *)
 EXTENDS Session, Json
 
-CONSTANTS Fam, MaxOps, MaxStore, Gen
+CONSTANTS Fam, MaxOps, MaxStore, Gen, Small     \* Small = TRUE: reduced alphabets for the exhaustive edge export
 
 VARIABLES nops, hist
 mvars == <<allvars, nops, hist>>
@@ -19,35 +19,38 @@ Open == {c \in Clients : conn[c] = "open"}
 In(fams) == Fam = "all" \/ Fam \in fams
 
 Words ==
-    CASE Fam = "pubsub"   -> { <<"a", "b">>, <<"b", "a">>, <<"a", "a">>, <<"b", "b">>, <<"a">> }
-      [] Fam = "retain"   -> { <<"a">>, <<"a", "b">>, <<"b">> }
-      [] Fam = "ending"   -> { <<"a", "b">>, <<"b", "a">>, <<"a">> }
-      [] Fam = "presence" -> { <<"a">>, <<"a", "b">>, <<"b">> }
+    CASE Fam = "pubsub"   -> IF Small THEN { <<"a", "b">>, <<"b", "a">>, <<"a">> } ELSE { <<"a", "b">>, <<"b", "a">>, <<"a", "a">>, <<"b", "b">>, <<"a">> }
+      [] Fam = "retain"   -> IF Small THEN { <<"a">>, <<"a", "b">> } ELSE { <<"a">>, <<"a", "b">>, <<"b">> }
+      [] Fam = "ending"   -> IF Small THEN { <<"a", "b">>, <<"b", "a">> } ELSE { <<"a", "b">>, <<"b", "a">>, <<"a">> }
+      [] Fam = "presence" -> IF Small THEN { <<"a">>, <<"a", "b">> } ELSE { <<"a">>, <<"a", "b">>, <<"b">> }
       [] OTHER            -> { <<"a", "b">>, <<"b", "a">>, <<"a">>, <<"b">>, <<"x", "x", "y">>, <<"y">> }
 Wild ==
-    CASE Fam = "pubsub" -> { <<"a", PLUS>>, <<PLUS, "a">> } \cup (IF Mode = "mqtt" THEN { <<"a", HASH>> } ELSE {})
+    CASE Small -> IF Fam = "pubsub" THEN { <<"a", PLUS>> } ELSE {}
+      [] Fam = "pubsub" -> { <<"a", PLUS>>, <<PLUS, "a">> } \cup (IF Mode = "mqtt" THEN { <<"a", HASH>> } ELSE {})
       [] Fam = "retain" -> { <<"a", PLUS>> }
       [] Fam = "all"    -> { <<"a", PLUS>>, <<PLUS, "b">> } \cup (IF Mode = "mqtt" THEN { <<"a", HASH>>, <<HASH>> } ELSE {})
       [] OTHER          -> {}
 Filters == Words \cup Wild
 
-SubKeys  == IF In({"retain"}) /\ Fam # "all" THEN {"kAll", "kNoSL"} ELSE IF Fam = "all" THEN {"kAll", "kNoSL", "kWO", "kBad", "kExt"} ELSE {"kAll", "kWO", "kBad"}
-PubKeys  == IF Fam = "retain" THEN {"kAll", "kNoSL"} ELSE IF Fam = "all" THEN {"kAll", "kNoSL", "kRO", "kBad", "kExt"} ELSE {"kAll", "kRO"}
-Syns     == IF Fam \in {"pubsub", "all"} THEN {"ok", "noslash"} ELSE {"ok"}
-SynW     == IF Fam \in {"pubsub", "all"} THEN <<"ok", "ok", "ok", "ok", "ok", "ok", "ok", "noslash">> ELSE <<"ok">>
+SubKeys  == IF Small THEN (IF Fam = "retain" THEN {"kAll", "kNoSL"} ELSE {"kAll"}) ELSE IF In({"retain"}) /\ Fam # "all" THEN {"kAll", "kNoSL"} ELSE IF Fam = "all" THEN {"kAll", "kNoSL", "kWO", "kBad", "kExt"} ELSE {"kAll", "kWO", "kBad"}
+PubKeys  == IF Small THEN (IF Fam = "retain" THEN {"kAll", "kNoSL"} ELSE {"kAll"}) ELSE IF Fam = "retain" THEN {"kAll", "kNoSL"} ELSE IF Fam = "all" THEN {"kAll", "kNoSL", "kRO", "kBad", "kExt"} ELSE {"kAll", "kRO"}
+Syns     == IF Small THEN {"ok"} ELSE IF Fam \in {"pubsub", "all"} THEN {"ok", "noslash"} ELSE {"ok"}
+SynW     == IF Small THEN <<"ok">> ELSE IF Fam \in {"pubsub", "all"} THEN <<"ok", "ok", "ok", "ok", "ok", "ok", "ok", "noslash">> ELSE <<"ok">>
 SetToSeq(S) == CHOOSE f \in [1..Cardinality(S) -> S] : \A x \in S : \E i \in 1..Cardinality(S) : f[i] = x
 SubKeyW  == <<"kAll", "kAll", "kAll", "kAll">> \o SetToSeq(SubKeys)
 PubKeyW  == <<"kAll", "kAll", "kAll", "kAll">> \o SetToSeq(PubKeys)
-Lasts    == IF Fam \in {"retain", "all"} THEN {-1, 0, 1, 2, 1000} ELSE {0}
-Wins     == IF Fam \in {"retain", "all"} THEN {"none", "fromPast", "fromFuture", "untilPast", "untilFuture"} ELSE {"none"}
-Payloads == {"m1", "m2"}
+Lasts    == IF Small /\ Fam = "retain" THEN {-1, 0, 2} ELSE IF Fam \in {"retain", "all"} THEN {-1, 0, 1, 2, 1000} ELSE {0}
+Wins     == IF Small THEN {"none"} ELSE IF Fam \in {"retain", "all"} THEN {"none", "fromPast", "fromFuture", "untilPast", "untilFuture"} ELSE {"none"}
+Payloads == IF Small THEN {"m1"} ELSE {"m1", "m2"}
 TTLs     == IF Fam \in {"retain", "all"} THEN {0, 3600} ELSE {0}
 Rts      == IF Fam \in {"retain", "all"} THEN BOOLEAN ELSE {FALSE}
 Users    == [c \in Clients |-> "u-" \o c]
 
 Req(k, w, syn, me0, ttl) == [k |-> k, w |-> w, syn |-> syn, me0 |-> me0, ttl |-> ttl]
 Wills == {NoWill}
-         \cup (IF Fam \in {"ending", "all"}
+         \cup (IF Small /\ Fam = "ending"
+               THEN { [on |-> TRUE, k |-> k, w |-> <<"a", "b">>, syn |-> "ok", retain |-> FALSE, p |-> "will"] : k \in {"kAll", "kRO"} }
+               ELSE IF Fam \in {"ending", "all"}
                THEN { [on |-> TRUE, k |-> k, w |-> w, syn |-> "ok", retain |-> rt, p |-> "will"] :
                           k \in {"kAll", "kRO", "kBad"}, w \in {<<"a">>, <<"a", "b">>}, rt \in BOOLEAN }
                     \cup { [on |-> TRUE, k |-> "kAll", w |-> <<"a", PLUS>>, syn |-> "ok", retain |-> FALSE, p |-> "will"],
